@@ -471,6 +471,7 @@ def run(tier):
     contracts.check_int(cctx, _lib)
     contracts.check_int(cctx, _lib, alias=True)
     contracts.check_hex_digit(cctx, _lib)
+    contracts.check_val(cctx, _lib)
     contracts.check_hex_length(cctx, _lib)
     ctx.bounds["contracts_discharged"] = ["ecb_int = floor (|v| <= 1e5, not within 1e-9 below an integer)", "_ecb_hex_digit = hex digit 0..15", "ecb_hex: number of digits for 0..65535"]
     ctx.add_solver_stats(smt.STATS.export())
